@@ -454,7 +454,7 @@ func (s *vScenario) project() (*vState, error) {
 
 func (s *vScenario) cacheContent(c *converters.CachedConverter) []vEntry {
 	res := []vEntry{}
-	for id := 0; id < 16; id++ {
+	for id := 0; id < 96; id++ {
 		if !c.Contains(uint64(id)) {
 			continue
 		}
